@@ -264,10 +264,7 @@ class Cache(Machine):
             rel = f"pl_{name}_{depth}_{s.below(10 ** 7)}.bin"
             data = world.blob(host.seed, rel, size)
             host.write(rel, data)
-            payloads[pn] = host.path(rel) if size > 0 else ""
-            if size == 0:
-                payloads[pn] = ""
-        payloads = {k: v for k, v in payloads.items() if v != ""}
+            payloads[pn] = host.path(rel)  # a zero-length payload (empty file) is a legal payload too
         deps = {dn: self._describe(host, s.sub(dn), name, sub, depth + 1) for dn, sub in shape["deps"].items()}
         g = gen.DescGen(s.sub("g", depth), ["severed", "text"] if s.chance(0.5) else [], size=0)
         return g.envelope(payload_names=payloads or None, dep_names=deps or None)
